@@ -29,6 +29,7 @@ structure TD where
   slow : List Nat := []           -- oids on the slow revalidation list (entries not listed are on the fast one)
   active : List (Nat × Nat) := [] -- started revalidation requests: (id, oid)
   prev : String := ""             -- previous implementation snapshot
+  initDone : Bool := true         -- the table's initial seeding phase is over (inbound contacts are added)
 
 def boOf (d : TD) (id : Nat) : Nat := match d.bo.find? (·.1 == id) with | some p => p.2 | none => 0
 def recOf (d : TD) (k : Nat) : Option Rec := (d.recs.find? (·.1 == k)).map (·.2)
@@ -222,7 +223,11 @@ def step (prop : String) (d : TD) (toks : List String) (impl : String) : TD × R
   | "tabinit" :: _ =>
     let selfId := beValN (unhex (kv toks "self"))
     let subs := ((kv toks "subnets").splitOn ",").map fun s => (parseIP (s ++ ".0")).subnet
-    ({ selfId := selfId, subnets := subs, t := emptyTable 0 }, { model := "ok", tags := ["tabinit"], nontrivial := false })
+    ({ selfId := selfId, subnets := subs, t := emptyTable 0, initDone := kv toks "initdone" != "0" },
+     { model := "ok", tags := ["tabinit", if kv toks "initdone" == "0" then "pre-init" else "init-done"], nontrivial := false })
+  | ["initdone"] =>
+    -- the end of the seeding phase changes nothing in the table
+    finishOp { d with initDone := true } prop toks impl d.t d.slow d.active "" ["initdone"]
   | ["id", i, hexid, b] =>
     let idx := (i.drop 1).toNat!
     let idv := beValN (unhex hexid)
@@ -241,6 +246,10 @@ def step (prop : String) (d : TD) (toks : List String) (impl : String) : TD × R
     match parseRecRef d k with
     | none => (d, { model := "bad-rec" })
     | some r =>
+      -- during the seeding phase a node that contacted us is not added (and nothing else happens)
+      if !d.initDone && kv toks "inbound" == "1" then
+        finishOp d prop toks impl d.t d.slow d.active "ret=0 " ["add", "add-refused-pre-init"]
+      else
       let res := handleAddNode (boOf d) d.t r (kv toks "inbound" == "1") (kv toks "live" == "1")
       finishOp d prop toks impl res.1 d.slow d.active s!"ret={if res.2 then 1 else 0} "
         ["add", if res.2 then "add-new" else if (d.t.bkt (boOf d r.id)).entries.length ≥ 16 then "add-full" else "add-other"]
